@@ -449,6 +449,7 @@ func (prop) Generate(rng *core.Rand, tier string, emit func(string)) {
 	g := &gen{rng: rng.Fork()}
 	g.strOps(n*2, emit)
 	g.ggOps(n/10+20, emit)
+	g.cliOps(n/25+20, emit)
 
 	for i := 0; i < n; i++ {
 		line := g.history(maxSteps)
